@@ -134,3 +134,8 @@ def search(drv, model, diverged, lean, rng):
             m = c.check(o)
             if m: return c, o, "direct oracle: " + m
     return None
+
+# L2 guard-sequence fragment (extract/gen_guards.py -> lean/Op2Model/Gen/Guards.lean; notes/l2guards.md)
+LEAN_MODULES = LEAN_MODULES + ["Op2Proofs.Props.C01_Gen"]
+PROVED = PROVED + ("; " +
+          "L2 guard fragment (refusal conditions regenerated from the clang AST, Gen/Guards.lean): C01_gen_prepareHeader_refuses (the four throws of VolFile::PrepareHeader = refusals of Vol.prepLoop / the index-table test of Vol.plan / Vol.offLoop, for all values of the C++ types), C01_gen_readVolHeader_refuses (the five header tests of VolFile::ReadVolHeader = those of Vol.openWith), C01_gen_open_accepted_not_refused (whatever Vol.openWith accepts, the regenerated ReadVolHeader does not refuse on the lengths the model read)")
